@@ -63,7 +63,7 @@ fn valloc(addr: u64, size: usize, ty: u32, prot: u32) -> u64 {
 fn vfree(ptr: u64, size: usize, ty: u32) -> i32 {
     WS.with(|w| {
         let mut w = w.borrow_mut();
-        let ok = w.held.remove(&ptr) && size == 0 && ty == shim::MEM_RELEASE;
+        let ok = size == 0 && ty == shim::MEM_RELEASE && w.held.remove(&ptr);
         emit(json!({"ev":"Release","addr":a8(ptr),"ok":ok}));
         ok as i32
     })
